@@ -804,10 +804,60 @@ class Interp:
         self.ctx.used_models.add("loop idiom: filling an empty dict key by key = the dict comprehension over the same iteration")
         return True
 
+    def set_building_loop(self, st, env, f):
+        """The idiom   s = set() ... for T in ITER: [if C: continue]* s.add(E)   (or   if C: s.add(E)  ) with s empty when the loop
+        starts and not mentioned in ITER, the conditions or E is the set built from the generator (E for T in ITER if not C ...);
+        evaluated as such, in place (the conditions are evaluated in the same order, with the same short-circuiting)."""
+        body = list(st.body)
+        if not body:
+            return False
+        ifs = []
+        while len(body) > 1:
+            g = body.pop(0)
+            if not (isinstance(g, ast.If) and not g.orelse and len(g.body) == 1 and isinstance(g.body[0], ast.Continue)):
+                return False
+            ifs.append(ast.UnaryOp(op=ast.Not(), operand=g.test))
+        last = body[0]
+        if isinstance(last, ast.If) and not last.orelse and len(last.body) == 1:
+            ifs.append(last.test)
+            last = last.body[0]
+        if not (isinstance(last, ast.Expr) and isinstance(last.value, ast.Call) and isinstance(last.value.func, ast.Attribute)
+                and last.value.func.attr == "add" and isinstance(last.value.func.value, ast.Name)
+                and len(last.value.args) == 1 and not last.value.keywords):
+            return False
+        name = last.value.func.value.id
+        elt = last.value.args[0]
+        mentions = lambda node: any(isinstance(x, ast.Name) and x.id == name for x in ast.walk(node))
+        if mentions(elt) or mentions(st.iter) or mentions(st.target) or any(mentions(c) for c in ifs):
+            return False
+        try:
+            cur = env.lookup(name)
+        except Exception:
+            return False
+        if not isinstance(cur, MSet):
+            return False
+        probe = z3.Const("probe!setloop", V)
+        if not z3.is_false(z3.simplify(zbool(cur.set.mem(probe)))):
+            return False
+        gen = ast.GeneratorExp(elt=elt, generators=[ast.comprehension(target=st.target, iter=st.iter, ifs=ifs, is_async=0)])
+        ast.copy_location(gen, st)
+        ast.fix_missing_locations(gen)
+        val = self.models._set(self, [self.ev(gen, env, f)], {})
+        if not isinstance(val, MSet):
+            return False
+        cur.set = val.set
+        for k_, v_ in val.__dict__.items():
+            if k_ not in ("id", "ctx"):
+                setattr(cur, k_, v_)
+        self.ctx.used_models.add("loop idiom: adding to an empty set element by element = the set of the generator over the same iteration")
+        return True
+
     def st_For(self, st, env, f):
         if st.orelse:
             raise Unsupported("for/else")
         if self.dict_building_loop(st, env, f):
+            return
+        if self.set_building_loop(st, env, f):
             return
         it = self.ev(st.iter, env, f)
         kind, coll = self.models.iter_of(self, it)
